@@ -167,3 +167,22 @@ Proof.
   destruct ants_all_prompt_witness_l as (s & H1 & H2 & H3 & H4 & (A1 & A2 & A3 & A4 & A5 & A6) & (B1 & B2 & B3 & B4) & (C1 & C2 & C3 & C4 & C5)).
   exists s. repeat split; auto; vm_compute; reflexivity.
 Qed.
+
+(* ------------------------------------------------------------------------------------------------
+   The STEP model (D20): coq/models/AntsSteps.v, one step per yield site of ants/verif_on.go, stepped
+   against the real pool by the C07 stream "dispatch-steps" (dispatcher and inner-callback loops as
+   logical threads of the cooperative scheduler, on the virtual clock).
+
+   ants_steps_concurrency_bound: for every pool size n, all client programs (Send with any options and
+   handler scripts, Get2, Close), every schedule and every resolution of the selects, in both modes
+   (the fixed code and the code before d4c0a4b), the number of handler invocations in progress never
+   exceeds n.  ast_running is incremented by the step in which an inner worker calls the handler and
+   decremented by the step in which the handler returns; the invariant is "ast_running = number of
+   threads parked inside a handler" and those are inner-worker threads, of which there are n. *)
+From Got Require Import AntsSteps AntsStepsProofs.
+
+Theorem ants_steps_concurrency_bound :
+  forall (md : ast_mode) (n : nat) (progs : list (list ast_op)) (sched : list (nat * bool)),
+    (ast_running (ast_run md n (ast_init n progs) sched) <= n)%nat.
+Proof. exact ast_steps_concurrency_bound. Qed.
+Print Assumptions ants_steps_concurrency_bound.
